@@ -6,7 +6,8 @@ Model: `CoclsModel/ThreadPool.lean` (one small step per critical section on the 
 workers `0..nw-1`, clients `nw..nt-1`).  Every theorem quantifies over *all* configurations (any number of workers ≥ 1 and
 of clients, arbitrary client scripts: submissions of every kind whose bodies may stop the pool, submit nested work or
 delete the pool, or block until another job has signalled an event (a job waiting for another job); `stop()`;
-destruction; optionally a second pool instance B that jobs and clients stop or destroy), over *all* schedules (`run` over an arbitrary list of thread choices, threads
+destruction; the `thread_pool::current` API — `is_stopped()`, `any_enqueued()`, `co_await current()` re-submitting the rest
+of a body — from workers, ex-workers and threads that are no workers; optionally a second pool instance B that jobs and clients stop or destroy), over *all* schedules (`run` over an arbitrary list of thread choices, threads
 that are not enabled do not move) and over *all* choices of the waiter a `notify_one` wakes and of the order in which
 `stop()` destroys the closures of the swapped-out queue (`std::deque` leaves it unspecified).
 
@@ -23,6 +24,7 @@ structure WF (c : Cfg) : Prop where
   nw : 0 < c.nw
   nt : c.nw ≤ c.nt
   b : c.hasB = true → c.nw < c.nt
+  cur : c.curNullOk = true
 
 /-- every state some schedule can produce -/
 def Reachable (c : Cfg) (s : State) : Prop := ∃ sched, s = run c (init c) sched
@@ -43,7 +45,7 @@ def Cancellable (c : Cfg) (k : Kind) : Prop := dropKind c k ≠ DropAct.nothing
 
 theorem reachable_inv {c : Cfg} (hc : WF c) {s : State} (h : Reachable c s) : Inv c s := by
   obtain ⟨sched, rfl⟩ := h
-  exact inv_run sched (inv_init c hc.out hc.nw hc.nt hc.b)
+  exact inv_run sched (inv_init c hc.out hc.nw hc.nt hc.b hc.cur)
 
 /-- in a stuck state nobody is blocked on the pool mutex: its holder (a worker at the head of its loop) could move; so
 every thread is disabled for a reason of its own program counter -/
@@ -545,10 +547,27 @@ theorem c11_fixed_closure_dtor :
     s.pc 0 = Pc.done ∧ s.pc 1 = Pc.done ∧ s.ran 0 = 1 ∧ s.destroyed = true ∧ s.detached 0 = true := by
   decide
 
+/-- The pinned `current_awaiter` constructor formed a reference from `*_current` (`curNullOk = false`): `co_await
+thread_pool::current()` on a thread that is no worker — the case `await_ready` explicitly supports — is undefined
+behaviour and aborts a sanitizer build before the coroutine could go on (replayed on the headers:
+corpus/c11_current_api.txt; repaired by a `fix:` commit). -/
+theorem c11_asis_current_null_ref :
+    let c : Cfg := { nw := 1, nt := 2, script := fun _ => [Act.resub, Act.submit Kind.det [] false], curNullOk := false }
+    let s := run c (init c) schedClientFirst
+    s.pc 1 = Pc.stuck ∧ s.nextJob = 0 := by
+  decide
+
+/-- the repaired code on the same input: the coroutine goes on inline, the following submission runs -/
+theorem c11_fixed_current_null :
+    let c : Cfg := { nw := 1, nt := 2, script := fun _ => [Act.resub, Act.submit Kind.det [] false] }
+    let s := run c (init c) schedClientFirst
+    s.pc 1 = Pc.done ∧ s.nextJob = 1 ∧ s.ran 0 = 1 := by
+  decide
+
 /-! ## Non-vacuity: the hypotheses are met by non-trivial reachable states -/
 
 example : WF (cfg1 [Act.submit Kind.co [] false, Act.submit Kind.fn [Prim.stop] false, Act.submit Kind.det [] false] true true) :=
-  ⟨rfl, by decide, by decide, by decide⟩
+  ⟨rfl, by decide, by decide, by decide, rfl⟩
 
 /-- a job stops the pool from its worker (self-detach) while two more submissions are queued: quiescent, all done, one
 ran, two cancelled -/
@@ -585,6 +604,24 @@ example :
                              ++ List.replicate 6 (1, 0) ++ List.replicate 30 (0, 0))
     (∀ t, t < 3 → enabled s t = false) ∧ s.exit = false ∧ s.bExit = true ∧ s.pc 1 = Pc.done ∧ s.pc 0 = Pc.wCvBlocked ∧
     s.cur 0 = true ∧ s.ran 0 = 1 ∧ s.ran 1 = 1 ∧ s.fut 1 = Fut.value := by
+  decide
+
+/-- `co_await thread_pool::current()` inside a job: the rest of the body (here: asking `current::is_stopped()`) becomes a
+new unit of work of the same pool (a reachable state passes `Pc.peekDone Peek.resub false`); both units run once -/
+example :
+    let c := cfg1 [Act.submit Kind.co [Prim.resub, Prim.curStopped] false] true true
+    let mid := run c (init c) (List.replicate 6 (1, 0) ++ List.replicate 5 (0, 0))
+    let s := run c mid (List.replicate 30 (0, 0))
+    mid.pc 0 = Pc.peekDone Peek.resub false ∧ (∀ t, t < 2 → enabled s t = false) ∧ s.nextJob = 2 ∧ s.kind 1 = Kind.co ∧
+    s.ran 0 = 1 ∧ s.ran 1 = 1 ∧ s.ranOn 1 = some 0 := by
+  decide
+
+/-- a worker that stopped its own pool and then awaits `current()`: `_current` is null, the coroutine goes on inline,
+nothing is submitted -/
+example :
+    let c := cfg1 [Act.submit Kind.co [Prim.stop, Prim.resub, Prim.curStopped] false] true true
+    let s := run c (init c) schedClientFirst
+    (∀ t, t < 2 → enabled s t = false) ∧ s.nextJob = 1 ∧ s.ran 0 = 1 ∧ s.detached 0 = true ∧ s.pc 0 = Pc.done := by
   decide
 
 /-- an idle pool that nobody stopped: the client is finished, the worker sleeps, both jobs ran -/
